@@ -38,4 +38,8 @@ EXPLANATION = 'reward outside bookkeeping lemmas per reward; collect pays min(ow
 
 
 def run(ctx):
+    # Engine M complement (props/mextra.py): the swap loop's crossing/fee/reward wiring (Floyd verification shared with C03) and, where relevant, the payout handlers and leaf kernels
+    from props import mextra
+    ctx.mir()
+    ctx.parallel(mextra.c11_tasks(), max_procs=6)
     ctx.run_kani(['c11.rs'])
